@@ -13,9 +13,12 @@ Expression level
 Statement level
   * `if not c: A else: B`                        ->  `if c: B else: A`
   * guard clause: `if c: <...exit>` followed by REST  ->  `if c: <...exit> else: REST`
+    and `if c: <...exit> else: B` followed by REST      ->  `if c: <...exit> else: B; REST` (either arm)
     (exit = return / raise / continue / break as last statement), applied bottom-up,
     so early-return style and nested if/else style coincide
   * `if k in X: v = X[k] else: v = d`            ->  `v = X.get(k, d)`
+  * `if c: pass else: B` -> `if not c: B`; stray `pass` removed
+  * `X = {..}` directly followed by `X['k'] = v` (call-free values) -> the key joins the display
 Line numbers of the original nodes are kept on the rewritten ones.
 """
 import ast
@@ -191,24 +194,71 @@ def _exits(stmts):
     return False
 
 
+def _fold_dict_stores(stmts):
+    """`X = {..}` directly followed by `X[<const>] = v` (v not mentioning X)  ->  the key joins the display"""
+    out = []
+    for s in stmts:
+        prev = out[-1] if out else None
+        if (
+            prev is not None
+            and isinstance(prev, ast.Assign)
+            and len(prev.targets) == 1
+            and isinstance(prev.targets[0], ast.Name)
+            and isinstance(prev.value, ast.Dict)
+            and all(k is not None and isinstance(k, ast.Constant) for k in prev.value.keys)
+            and isinstance(s, ast.Assign)
+            and len(s.targets) == 1
+            and isinstance(s.targets[0], ast.Subscript)
+            and isinstance(s.targets[0].value, ast.Name)
+            and s.targets[0].value.id == prev.targets[0].id
+            and isinstance(s.targets[0].slice, ast.Constant)
+            and s.targets[0].slice.value not in [k.value for k in prev.value.keys]
+            and not any(isinstance(n, ast.Name) and n.id == prev.targets[0].id for n in ast.walk(s.value))
+            and not any(isinstance(n, (ast.Call, ast.Yield, ast.YieldFrom, ast.Await, ast.NamedExpr)) for v in list(prev.value.values) + [s.value] for n in ast.walk(v))
+        ):
+            prev.value.keys.append(s.targets[0].slice)
+            prev.value.values.append(s.value)
+            continue
+        out.append(s)
+    return out
+
+
 def canon_block(stmts):
     """bottom-up: guard clauses become if/else nests; negated tests are swapped"""
     out = []
     i = 0
     stmts = [canon_stmt(s) for s in stmts]
+    if len(stmts) > 1:
+        stmts = [s for s in stmts if not isinstance(s, ast.Pass)] or stmts[:1]
+    stmts = _fold_dict_stores(stmts)
     # from the end: `if c: A(exits)` + rest -> if c: A else: rest
     res = []
     for s in reversed(stmts):
         if isinstance(s, ast.If) and not s.orelse and _exits(s.body) and res:
             s = _loc(ast.If(test=s.test, body=s.body, orelse=list(res)), s)
             res = [swap_if(s)]
+        elif isinstance(s, ast.If) and s.orelse and res and _exits(s.body) and not _exits(s.orelse):
+            # if c: <exit> else: B  followed by REST  ==  if c: <exit> else: B; REST
+            s = _loc(ast.If(test=s.test, body=s.body, orelse=canon_block(list(s.orelse) + list(res))), s)
+            res = [swap_if(s)]
+        elif isinstance(s, ast.If) and s.orelse and res and _exits(s.orelse) and not _exits(s.body):
+            s = _loc(ast.If(test=s.test, body=canon_block(list(s.body) + list(res)), orelse=s.orelse), s)
+            res = [swap_if(s)]
         else:
             res.insert(0, swap_if(s) if isinstance(s, ast.If) else s)
     return res
 
 
+def _only_pass(stmts):
+    return bool(stmts) and all(isinstance(x, ast.Pass) for x in stmts)
+
+
 def swap_if(s):
     t = s.test
+    if _only_pass(s.orelse):
+        s = _loc(ast.If(test=s.test, body=s.body, orelse=[]), s)
+    if _only_pass(s.body) and s.orelse:
+        return swap_if(_loc(ast.If(test=ExprCanon().visit(negate(copy.deepcopy(t))), body=s.orelse, orelse=[]), s))
     if isinstance(t, ast.UnaryOp) and isinstance(t.op, ast.Not) and s.orelse:
         return _loc(ast.If(test=t.operand, body=s.orelse, orelse=s.body), s)
     # if k in X: v = X[k] else: v = d  ->  v = X.get(k, d)
